@@ -69,6 +69,18 @@ def cases(rng, tier):
             for k in range(4):
                 for free in itertools.combinations(["x", "y", "f"], k):
                     yield {"op": "C18.collapse", "tag": f"exh{n}", "expr": e, "free": list(free)}
+    # the SAME constant operands under different operators / at several places of one expression (a cache of folded
+    # groups keyed by the operands alone would hand the sum's variable to the product)
+    for _ in range(60 if tier == "quick" else 600):
+        consts = [["v", n] for n in rng.sample(["a", "b", "w", "z"], rng.randint(2, 3))]
+        if rng.random() < 0.3:
+            consts[0] = ["call", "g", [consts[0]], []]
+        nc1, nc2 = ["v", rng.choice(["x", "y"])], ["v", rng.choice(["x", "y"])]
+        s_ = ["+", list(consts) + [nc1]]
+        p_ = ["*", list(consts) + [nc2]]
+        shapes = [["*", [s_, ["call", "f", [p_], []]]], ["+", [p_, s_]], ["call", "f", [s_, p_], []],
+                  ["+", [s_, ["*", [["c", 2], s_]]]], ["*", [p_, p_]]]
+        yield {"op": "C18.collapse", "tag": "same-constants-twice", "expr": rng.choice(shapes), "free": ["x", "y"]}
     for _ in range(2000 if tier == "quick" else 30000):
         e = rand_expr(rng, rng.randint(1, 4))
         names = ["x", "y", "z", "w", "a", "b", "f", "g"]
